@@ -17,7 +17,8 @@ struct ParseError {
     MACRO_COMPILE_NON_LR,
     MACRO_APPLY_REACHED_MAX_PASSES,
     UNKNOWN_TOKEN,
-    RANGE
+    RANGE,
+    TOO_MANY_TOKENS
   };
   Type t;
   std::string msg;
